@@ -3,7 +3,6 @@ package main
 import (
 	"fmt"
 	"go/token"
-	"go/types"
 	"strings"
 
 	"golang.org/x/tools/go/ssa"
@@ -12,10 +11,10 @@ import (
 func init() {
 	register(&propDef{
 		id: "C32", run: runC32, minOblig: 30,
-		explanation: "Decides the accept discipline of (*connection).serverAuthenticate on its SSA form, for all request histories and callback behaviours at once: the only nil-error return lies behind the 'authErr == nil' edge of one error phi; EVERY value that can flow into that phi is classified and must be (i) provably non-nil, (ii) the error result of a configured callback of the current authConfig (password, keyboard-interactive), of NoClientAuthCallback (only behind NoClientAuth && !partialSuccessReturned), of gssExchangeToken, or of VerifiedPublicKeyCallback (only behind a successful Verify and a nil cached decision, and called with the client's key, not the no-touch variant), (iii) the constant nil only behind NoClientAuth && !partialSuccessReturned && NoClientAuthCallback == nil, or (iv) the cached PublicKeyCallback decision only if every path of the same loop iteration crosses the success edge of PublicKey.Verify — any other definition is a violation. For the Verify call: the signed data is buildDataSignedForAuth(sessionID from the transport, this iteration's request, algo, pubKeyData) with the same pubKeyData that was parsed into the verifying key, looked up in the cache and handed to the callback; the four algorithm guards (underlyingAlgo(algo) allowed, algo compatible with key type, sig.Format allowed, isAlgoCompatible) each lie on every path to Verify. Permissions: the returned value is never loop-carried and on each accepting edge it is produced by the same callback invocation (or cache entry) as the error; the pubkey cache hit requires equal user AND key bytes; partial success requires nil permissions, installs Next callbacks and resets the cache. NOT decided: the Verify implementations (C40) and user callbacks.",
+		explanation: "Decides the accept discipline of (*connection).serverAuthenticate on its SSA form, for all request histories and callback behaviours at once, independently of how the code is factored (same-package helpers are expanded in place; values are identified by provenance across calls, cache-entry fields by their type, never by names of locals, parameters or receivers): the only nil-error return lies behind the 'authErr == nil' edge of one error phi; EVERY value that can flow into that phi — results of same-package helpers are replaced by the helper's own returned values — is classified and must be (i) provably non-nil, (ii) the error result of a configured callback of the current authConfig (password, keyboard-interactive), of NoClientAuthCallback (only behind NoClientAuth && !partialSuccessReturned), of gssExchangeToken (with the current authConfig's GSSAPI config), or of VerifiedPublicKeyCallback (only behind a successful Verify and a nil cached decision, and called with the client's key, not the no-touch variant), (iii) the constant nil only behind NoClientAuth && !partialSuccessReturned && NoClientAuthCallback == nil, or (iv) the cached PublicKeyCallback decision only if every path of the same loop iteration crosses the success edge of PublicKey.Verify — any other definition is a violation. A gate counts wherever it lives: a helper all of whose successful (nil-error / true) returns lie behind the gate hands it to its callers through the success edges of its calls. For every Verify call over buildDataSignedForAuth: the signed data is (sessionID from the transport, this iteration's request, algo, pubKeyData) with the same pubKeyData that was parsed into the verifying key, looked up in the cache and handed to the callback; the four algorithm guards (underlyingAlgo(algo) allowed, algo compatible with key type, sig.Format allowed, isAlgoCompatible; membership as slices.Contains, slices.Index or a scan) each lie on every path of the iteration to Verify. Permissions: the returned value is never loop-carried and, through every join and helper return, is produced by the same callback invocation (or cache entry) as the error; the pubkey cache hit requires equal user AND key bytes; partial success requires nil permissions, installs Next callbacks and resets the cache before the next request is read. NOT decided: the Verify implementations (C40) and user callbacks.",
 		assumptions: []string{"interface method PublicKey.Verify implementations are sound (C40)", "local struct allocs that do not escape are only changed by the stores seen in the function"},
 	})
-	tech("C32", "SSA value-flow classification of every definition reaching the accept test + iteration-local must-cross CFG rules + argument provenance")
+	tech("C32", "SSA value-flow classification of every definition reaching the accept test (helper results expanded) + iteration-local must-cross rules on the call tree expanded in place + argument provenance across calls")
 }
 
 type saCtx struct {
@@ -25,43 +24,11 @@ type saCtx struct {
 	H    *ssa.BasicBlock // loop header
 	back edgeSet
 	ret  *ssa.Return
-}
+	deep []*ssa.Function // fn and its same-package helpers
 
-// iterCross: every iteration-local path from the loop header to block b
-// crosses one of the pass edges.
-func (s *saCtx) iterCross(b *ssa.BasicBlock, pass []edge) bool {
-	if len(pass) == 0 {
-		return false
-	}
-	cut := edgeSet{}
-	cut.addAll(pass)
-	for k := range s.back {
-		cut[k] = true
-	}
-	return !reach([]*ssa.BasicBlock{s.H}, cut)[b]
-}
-
-// iterCrossInto: every iteration-local path from the loop header that enters
-// block 'to' over an edge from 'pred' crosses one of the pass edges (the
-// entering edge itself may be a pass edge).
-func (s *saCtx) iterCrossInto(pred, to *ssa.BasicBlock, pass []edge) bool {
-	if len(pass) == 0 {
-		return false
-	}
-	cut := edgeSet{}
-	cut.addAll(pass)
-	for k := range s.back {
-		cut[k] = true
-	}
-	if !reach([]*ssa.BasicBlock{s.H}, cut)[pred] {
-		return true
-	}
-	for i, sb := range pred.Succs {
-		if sb == to && !cut[edge{pred, i}] {
-			return false
-		}
-	}
-	return true
+	pairSeen map[[2]ssa.Value]bool
+	pairN    int
+	pairBad  poser
 }
 
 func findServerAuth(c *Ctx) *saCtx {
@@ -69,7 +36,7 @@ func findServerAuth(c *Ctx) *saCtx {
 	if fn == nil {
 		return nil
 	}
-	s := &saCtx{c: c, fn: fn, back: backEdges(fn)}
+	s := &saCtx{c: c, fn: fn, back: backEdges(fn), deep: deepFuncs(fn)}
 	var accept []*ssa.Return
 	for _, r := range returnsOf(fn) {
 		if len(r.Results) == 2 && errNilness(r.Results[1], r.Block(), 0) != neverNil {
@@ -84,7 +51,7 @@ func findServerAuth(c *Ctx) *saCtx {
 	// the error phi whose == nil edge guards the accept return
 	allInstrs(fn, func(in ssa.Instruction) {
 		p, ok := in.(*ssa.Phi)
-		if !ok || !types.Identical(p.Type(), types.Universe.Lookup("error").Type()) {
+		if !ok || !c32IsError(p.Type()) {
 			return
 		}
 		yes, _ := edgesWhere(p, isNil)
@@ -112,40 +79,69 @@ func findServerAuth(c *Ctx) *saCtx {
 	return s
 }
 
-// callbackOrigin describes a dynamic call through a struct field.
-func callbackField(call *ssa.Call) (owner, field string, base ssa.Value, ok bool) {
+// callbackField describes a dynamic call through a struct field; the called
+// value is followed through helper parameters to the field it was read from.
+func (c *Ctx) c32CallbackField(call *ssa.Call) (owner, field string, base ssa.Value, ok bool) {
 	if call.Call.IsInvoke() || call.Call.StaticCallee() != nil {
 		return
 	}
-	return fieldOf(call.Call.Value)
+	return fieldOf(c.origin(call.Call.Value))
+}
+
+func c32IsVerifyCall(in ssa.Instruction) (*ssa.Call, bool) {
+	call, ok := in.(*ssa.Call)
+	if !ok || short(calleeName(&call.Call)) != "invoke:(ssh.PublicKey).Verify" {
+		return nil, false
+	}
+	return call, true
 }
 
 func runC32(c *Ctx) {
+	defer c32Debug(c)
 	s := findServerAuth(c)
 	if s == nil {
 		return
 	}
 	fn := s.fn
-	// --- anchors
-	var verify *ssa.Call
-	for _, ci := range calls(fn, nameIs("invoke:(ssh.PublicKey).Verify")) {
-		if verify != nil {
-			c.fail("C32.verify", "serverAuthenticate", ci, "more than one Verify call; rule expects exactly one")
+	// --- anchors, wherever they live in fn or its helpers
+	// the Verify calls over the data signed for user authentication
+	var verifies []*ssa.Call
+	nVerify := 0
+	deepInstrs(fn, func(in ssa.Instruction) {
+		if call, ok := c32IsVerifyCall(in); ok {
+			nVerify++
+			if sd, ok := c.origin(call.Call.Args[0]).(*ssa.Call); ok && short(calleeName(&sd.Call)) == "ssh.buildDataSignedForAuth" {
+				verifies = append(verifies, call)
+			}
 		}
-		verify = ci.(*ssa.Call)
-	}
-	if verify == nil {
-		c.fail("C32.verify", "serverAuthenticate", fn, "no call of PublicKey.Verify found")
+	})
+	if len(verifies) == 0 {
+		if nVerify > 0 {
+			c.fail("C32.verify-data", "Verify(data)", fn, "the verified data is not the result of buildDataSignedForAuth")
+		} else {
+			c.fail("C32.verify", "serverAuthenticate", fn, "no call of PublicKey.Verify found")
+		}
 		return
 	}
-	verifyOK, _ := errSuccessEdges(verify)
+	isAuthVerify := func(call *ssa.Call) bool {
+		for _, v := range verifies {
+			if v == call {
+				return true
+			}
+		}
+		return false
+	}
+	var verifyOK []edge
+	for _, f := range s.liftFacts(s.callFacts("verify", isNil, -1, isAuthVerify)) {
+		verifyOK = append(verifyOK, f.pass...)
+	}
 	// authConfig alloc: the ServerAuthCallbacks alloc that receives partialSuccess.Next
 	var authCfg *ssa.Alloc
 	var nextStore *ssa.Store
 	allInstrs(fn, func(in ssa.Instruction) {
 		if st, ok := in.(*ssa.Store); ok {
 			if al, ok := st.Addr.(*ssa.Alloc); ok && typeName(al.Type()) == "ServerAuthCallbacks" {
-				if _, fld, _, ok := fieldOf(st.Val); ok && fld == "Next" {
+				if o, fld, _, ok := fieldOf(st.Val); ok && fld == "Next" && o == "PartialSuccessError" {
 					authCfg, nextStore = al, st
 				}
 			}
@@ -162,7 +158,7 @@ func runC32(c *Ctx) {
 		if !ok {
 			break
 		}
-		if b, ok := p.Type().Underlying().(*types.Basic); !ok || b.Kind() != types.Bool {
+		if !c32IsBool(p.Type()) {
 			continue
 		}
 		for _, l := range phiLeaves(p) {
@@ -185,71 +181,67 @@ func runC32(c *Ctx) {
 		}
 	}
 	c.check(flagMonotone, "C32.partial-flag", "serverAuthenticate partialSuccessReturned", partial, "set on partial success and never cleared inside the loop", "the partial-success flag can be cleared inside the loop")
-	_, partialFalse := boolEdges(partial, true)
-	noClientAuthTrue, _ := edgesOnPath(fn, "config.NoClientAuth", isTrue)
-	ncaCallbackNil, _ := edgesOnPath(fn, "config.NoClientAuthCallback", isNil)
+	// gates of the "none" method, read wherever they are tested (fn or helpers; a
+	// helper parameter bound to the flag / the config field counts as the value)
+	_, partialFalse := s.edgesOfRole(func(v ssa.Value) bool { return v == ssa.Value(partial) }, isTrue)
+	noClientAuthTrue, _ := s.edgesOfRole(func(v ssa.Value) bool { return c32FieldLoad(v, "ServerConfig", "NoClientAuth") }, isTrue)
+	ncaCallbackNil, _ := s.edgesOfRole(func(v ssa.Value) bool { return c32FieldLoad(v, "ServerConfig", "NoClientAuthCallback") }, isNil)
 
-	// candidate.result loads and the cache entry alloc
-	isCandResult := func(v ssa.Value) (*ssa.UnOp, bool) {
-		u, ok := v.(*ssa.UnOp)
-		if !ok || u.Op != token.MUL {
-			return nil, false
-		}
-		al, f, ok := localFieldAddr(u.X)
-		if !ok || typeName(al.Type()) != "cachedPubKey" {
-			return nil, false
-		}
-		st := derefStruct(al.Type())
-		return u, st.Field(f).Name() == "result"
-	}
-
-	// --- classify every leaf of the accept phi
-	leaves := phiLeaves(s.A)
+	// --- classify every definition that can reach the accept test
+	leaves := s.errLeaves(s.A, 0)
 	nAccepting := 0
 	for i, l := range leaves {
 		name := fmt.Sprintf("authErr def#%d %s", i, describeVal(c, l.val))
-		if errNilness(l.val, l.pred, 0) == neverNil {
+		if l.depth > 0 {
+			if b := l.at(); b != nil {
+				name += " (returned by helper " + b.Parent().Name() + ")"
+			}
+		}
+		at := l.at()
+		if errNilness(l.val, at, 0) == neverNil {
 			c.ok("C32.accept-def", name, l.val, "provably non-nil (constructed error, sentinel, or dominated by its != nil edge)")
 			continue
 		}
-		if u, ok := l.val.(*ssa.UnOp); ok && localLoadNonNil(u, l.pred, s.H) {
+		if u, ok := l.val.(*ssa.UnOp); ok && at != nil && localLoadNonNil(u, at, s.startOf(u.Parent())) {
 			c.ok("C32.accept-def", name, l.val, "load of a local field whose != nil test dominates this edge with no intervening store")
 			continue
 		}
 		nAccepting++
 		switch {
 		case isNilConst(l.val):
-			ok := s.iterCrossInto(l.pred, l.phi.Block(), noClientAuthTrue) && s.iterCrossInto(l.pred, l.phi.Block(), partialFalse) && s.iterCrossInto(l.pred, l.phi.Block(), ncaCallbackNil)
-			c.check(ok, "C32.accept-def", name, l.pred.Instrs[0], "constant nil only behind NoClientAuth && !partialSuccessReturned && NoClientAuthCallback == nil",
+			ok := s.cross(l, noClientAuthTrue) && s.cross(l, partialFalse) && s.cross(l, ncaCallbackNil)
+			c.check(ok, "C32.accept-def", name, l.anchor(), "constant nil only behind NoClientAuth && !partialSuccessReturned && NoClientAuthCallback == nil",
 				"authErr is set to nil on a path that does not pass NoClientAuth == true, partialSuccessReturned == false and NoClientAuthCallback == nil")
 		default:
 			if ex, ok := l.val.(*ssa.Extract); ok {
 				if call, ok := ex.Tuple.(*ssa.Call); ok {
-					owner, field, base, isCb := callbackField(call)
+					owner, field, base, isCb := c.c32CallbackField(call)
 					callee := short(calleeName(&call.Call))
 					switch {
 					case isCb && owner == "ServerAuthCallbacks" && (field == "PasswordCallback" || field == "KeyboardInteractiveCallback"):
-						c.check(base == ssa.Value(authCfg), "C32.accept-def", name, call, "result of the current authConfig."+field,
+						c.check(s.allocOf(base) == authCfg, "C32.accept-def", name, call, "result of the current authConfig."+field,
 							field+" is not taken from the current (possibly partial-success-updated) callback set")
 					case isCb && owner == "ServerConfig" && field == "NoClientAuthCallback":
-						ok := s.iterCrossInto(l.pred, l.phi.Block(), noClientAuthTrue) && s.iterCrossInto(l.pred, l.phi.Block(), partialFalse)
+						ok := s.cross(l, noClientAuthTrue) && s.cross(l, partialFalse)
 						c.check(ok, "C32.accept-def", name, call, "NoClientAuthCallback result, only behind NoClientAuth && !partialSuccessReturned",
 							"NoClientAuthCallback can decide authentication without NoClientAuth being set or after a partial success")
 					case isCb && owner == "ServerConfig" && field == "VerifiedPublicKeyCallback":
-						ok := s.iterCross(call.Block(), verifyOK)
+						ok := s.deepCross(call, verifyOK)
 						c.check(ok, "C32.accept-def", name, call, "VerifiedPublicKeyCallback result, only after a successful Verify in this iteration",
 							"VerifiedPublicKeyCallback can be reached without a successful signature verification in the same iteration")
 					case callee == "ssh.gssExchangeToken" && ex.Index == 0:
-						c.ok("C32.accept-def", name, call, "gssExchangeToken's authentication result (AllowLogin after MIC verification)")
+						o, f, b, okf := fieldOf(c.origin(call.Call.Args[0]))
+						c.check(okf && o == "ServerAuthCallbacks" && f == "GSSAPIWithMICConfig" && s.allocOf(b) == authCfg, "C32.accept-def", name, call,
+							"gssExchangeToken's authentication result (AllowLogin after MIC verification) under the current authConfig's GSSAPI configuration",
+							"gssExchangeToken is not run with the GSSAPI configuration of the current (possibly partial-success-updated) callback set")
 					default:
 						c.fail("C32.accept-def", name, call, "authErr is defined by a call that is not a tabled authentication callback: "+callee+" "+owner+"."+field)
 					}
 					continue
 				}
 			}
-			if u, ok := isCandResult(l.val); ok && u != nil {
-				okc := s.iterCrossInto(l.pred, l.phi.Block(), verifyOK)
-				c.check(okc, "C32.accept-def", name, u, "cached PublicKeyCallback decision, only behind a successful Verify in the same iteration",
+			if _, e, f, ok := s.entryField(l.val); ok && f == e.result {
+				c.check(s.cross(l, verifyOK), "C32.accept-def", name, l.val, "cached PublicKeyCallback decision, only behind a successful Verify in the same iteration",
 					"the cached public-key decision can become authErr without a successful signature verification in the same iteration")
 				continue
 			}
@@ -259,14 +251,27 @@ func runC32(c *Ctx) {
 	c.check(nAccepting >= 5, "C32.accept-def", "count", s.A, fmt.Sprintf("%d possibly-nil definitions classified out of %d", nAccepting, len(leaves)),
 		fmt.Sprintf("only %d possibly-nil definitions found; the frozen minimum is 5 (none, password, keyboard-interactive, publickey, gssapi)", nAccepting))
 
-	// --- Verify: argument provenance
-	c32Verify(s, verify, verifyOK, authCfg)
+	// --- Verify: argument provenance, key identity, algorithm guards
+	pkds := map[ssa.Value]bool{}
+	for _, verify := range verifies {
+		c32Verify(s, verify, verifyOK, authCfg, pkds)
+	}
+	c32Callbacks(s, verifies, authCfg, pkds)
 
 	// --- permissions
-	c32Perms(s, authCfg, nextStore, partial)
+	c32Perms(s, nextStore)
 
 	// --- cache
 	c32Cache(s)
+}
+
+// startOf: where iteration-local reasoning about a value of function f starts:
+// the loop header in serverAuthenticate, the entry block in a helper.
+func (s *saCtx) startOf(f *ssa.Function) *ssa.BasicBlock {
+	if f == s.fn || f == nil {
+		return s.H
+	}
+	return f.Blocks[0]
 }
 
 func describeVal(c *Ctx, v ssa.Value) string {
@@ -275,7 +280,7 @@ func describeVal(c *Ctx, v ssa.Value) string {
 		return "const " + x.String()
 	case *ssa.Extract:
 		if call, ok := x.Tuple.(*ssa.Call); ok {
-			if o, f, _, ok := callbackField(call); ok {
+			if o, f, _, ok := c.c32CallbackField(call); ok {
 				return fmt.Sprintf("result#%d of %s.%s", x.Index, o, f)
 			}
 			return fmt.Sprintf("result#%d of %s", x.Index, short(calleeName(&call.Call)))
@@ -295,10 +300,46 @@ func describeVal(c *Ctx, v ssa.Value) string {
 	return strings.TrimSpace(v.Name() + " " + v.Type().String())
 }
 
-func c32Verify(s *saCtx, verify *ssa.Call, verifyOK []edge, authCfg *ssa.Alloc) {
+// inLoop: the instruction executes inside the request loop (in fn, or in a
+// helper called from inside the loop).
+func (s *saCtx) inLoop(in ssa.Instruction) bool {
+	site := s.siteInFn(in)
+	return site != nil && s.H.Dominates(site.Block())
+}
+
+// keyLeaves: the non-phi values a (key) value can be, through phis, helper
+// parameters and helper results.
+func (s *saCtx) keyLeaves(v, stop ssa.Value, depth int, out *[]ssa.Value) {
+	o := s.c.origin(v)
+	if depth > 6 || o == stop {
+		*out = append(*out, o)
+		return
+	}
+	if p, ok := o.(*ssa.Phi); ok {
+		for _, l := range phiLeaves(p) {
+			s.keyLeaves(l.val, stop, depth+1, out)
+		}
+		return
+	}
+	if h, _, idx, ok := s.helperResult(o); ok && h.Name() != "skKeyWithoutUP" {
+		n := 0
+		for _, r := range returnsOf(h) {
+			if rv := retVal(r, idx); rv != nil {
+				s.keyLeaves(rv, stop, depth+1, out)
+				n++
+			}
+		}
+		if n > 0 {
+			return
+		}
+	}
+	*out = append(*out, o)
+}
+
+func c32Verify(s *saCtx, verify *ssa.Call, verifyOK []edge, authCfg *ssa.Alloc, pkds map[ssa.Value]bool) {
 	c, fn := s.c, s.fn
 	// signed data
-	sd, _ := verify.Call.Args[0].(*ssa.Call)
+	sd, _ := c.origin(verify.Call.Args[0]).(*ssa.Call)
 	if sd == nil || short(calleeName(&sd.Call)) != "ssh.buildDataSignedForAuth" {
 		c.fail("C32.verify-data", "Verify(data)", verify, "the verified data is not the result of buildDataSignedForAuth")
 		return
@@ -306,29 +347,30 @@ func c32Verify(s *saCtx, verify *ssa.Call, verifyOK []edge, authCfg *ssa.Alloc) 
 	args := sd.Call.Args
 	// sessionID from transport
 	sidOK := false
-	if call, ok := args[0].(*ssa.Call); ok && strings.HasSuffix(calleeName(&call.Call), ".getSessionID") {
+	if call, ok := c.origin(args[0]).(*ssa.Call); ok && strings.HasSuffix(calleeName(&call.Call), ".getSessionID") {
 		sidOK = true
 	}
 	c.check(sidOK, "C32.verify-data", "signed data: session id", sd, "session identifier of this transport", "first argument of buildDataSignedForAuth is not the transport's session identifier")
-	// request: load of the alloc that Unmarshal fills in this iteration
-	var reqAlloc *ssa.Alloc
-	if u, ok := args[1].(*ssa.UnOp); ok {
-		reqAlloc, _ = u.X.(*ssa.Alloc)
-	}
+	// request: the message that Unmarshal fills in this iteration
 	reqOK := false
-	if reqAlloc != nil {
-		for _, ci := range callsNamed(fn, "ssh.Unmarshal") {
-			if mi, ok := ci.Common().Args[1].(*ssa.MakeInterface); ok && mi.X == ssa.Value(reqAlloc) && s.H.Dominates(ci.Block()) {
+	req := c.origin(args[1])
+	if reqAlloc := s.allocOf(req); reqAlloc != nil {
+		for _, ci := range deepCallsNamed(fn, "ssh.Unmarshal") {
+			if mi, ok := ci.Common().Args[1].(*ssa.MakeInterface); ok && s.allocOf(mi.X) == reqAlloc && s.inLoop(ci) {
 				reqOK = true
 			}
 		}
+	} else if h, call, _, ok := s.helperResult(req); ok && s.inLoop(call) && len(deepCallsNamed(h, "ssh.Unmarshal")) > 0 {
+		// a helper that reads and decodes the request, called in this iteration
+		reqOK = true
 	}
 	c.check(reqOK, "C32.verify-data", "signed data: request", sd, "the request decoded in this loop iteration", "second argument of buildDataSignedForAuth is not the request message decoded in this iteration")
 	// pubKeyData identity
-	pkd := args[3]
+	pkd := c.origin(args[3])
+	pkds[pkd] = true
 	var parsed *ssa.Call
-	for _, ci := range callsNamed(fn, "ssh.ParsePublicKey") {
-		if ci.Common().Args[0] == pkd {
+	for _, ci := range deepCallsNamed(fn, "ssh.ParsePublicKey") {
+		if s.same(ci.Common().Args[0], pkd) {
 			parsed = ci.(*ssa.Call)
 		}
 	}
@@ -341,128 +383,248 @@ func c32Verify(s *saCtx, verify *ssa.Call, verifyOK []edge, authCfg *ssa.Alloc) 
 		pubKey = v
 	}
 	// receiver of Verify: pubKey or skKeyWithoutUP(pubKey) chosen by noTouchAllowed(pubKey, candidate.perms)
+	var ntPass []edge
+	ntArgsOK := true
+	isNoTouch := func(call *ssa.Call) bool { return short(calleeName(&call.Call)) == "ssh.noTouchAllowed" }
+	for _, f := range s.liftFacts(s.callFacts("notouch", isTrue, 0, isNoTouch)) {
+		ntPass = append(ntPass, f.pass...)
+		if call, ok := f.val.(*ssa.Call); ok && isNoTouch(call) && !s.same(call.Call.Args[0], pubKey) {
+			ntArgsOK = false
+		}
+	}
 	recvOK := true
-	for _, l := range phiLeaves(verify.Call.Value) {
-		switch x := l.val.(type) {
+	var recv []ssa.Value
+	s.keyLeaves(verify.Call.Value, pubKey, 0, &recv)
+	for _, rv := range recv {
+		switch x := rv.(type) {
 		case *ssa.Extract:
-			if l.val != pubKey {
+			if rv != pubKey {
 				recvOK = false
 			}
 		case *ssa.Call:
-			if short(calleeName(&x.Call)) != "ssh.skKeyWithoutUP" || x.Call.Args[0] != pubKey {
+			if short(calleeName(&x.Call)) != "ssh.skKeyWithoutUP" || !s.same(x.Call.Args[0], pubKey) {
 				recvOK = false
 			} else {
 				// only behind noTouchAllowed(pubKey, …) == true
-				nt := callsNamed(fn, "ssh.noTouchAllowed")
-				pass := callSuccess(nt, 0, isTrue)
 				cut := edgeSet{}
-				cut.addAll(pass)
-				if len(pass) == 0 || pathFromEntry(x, cut) {
+				cut.addAll(ntPass)
+				if len(ntPass) == 0 || !ntArgsOK || deepReach(fn, cut, func(in ssa.Instruction) bool { return in == ssa.Instruction(x) }) != nil {
 					recvOK = false
-				}
-				for _, n := range nt {
-					if n.Common().Args[0] != pubKey {
-						recvOK = false
-					}
 				}
 			}
 		default:
 			recvOK = false
 		}
 	}
-	c.check(recvOK, "C32.verify-key", "Verify receiver", verify, "the verifying key is ParsePublicKey(pubKeyData), relaxed only through noTouchAllowed/skKeyWithoutUP", "the key used for Verify is not derived from the offered key bytes")
-	// cache lookup and callback see the same key / bytes
-	for _, ci := range callsNamed(fn, "(*ssh.pubKeyCache).get") {
-		a := ci.Common().Args
-		c.check(a[2] == pkd && strings.HasSuffix(accessPath(a[1]), ".user"), "C32.cache-key", "cache.get(user, pubKeyData)", ci, "lookup keyed by the connection's user and the offered key bytes", "cache lookup is not keyed by (s.user, pubKeyData)")
-	}
-	nPK := 0
-	allInstrs(fn, func(in ssa.Instruction) {
-		call, ok := in.(*ssa.Call)
-		if !ok {
-			return
-		}
-		if o, f, base, ok := callbackField(call); ok && o == "ServerAuthCallbacks" && f == "PublicKeyCallback" {
-			nPK++
-			c.check(base == ssa.Value(authCfg) && call.Call.Args[1] == pubKey, "C32.callback-key", "PublicKeyCallback(s, pubKey)", call, "current callback set, called with the parsed offered key", "PublicKeyCallback is not the current authConfig's or is not given the parsed offered key")
-		}
-		if o, f, _, ok := callbackField(call); ok && o == "ServerConfig" && f == "VerifiedPublicKeyCallback" {
-			c.check(call.Call.Args[1] == pubKey, "C32.callback-key", "VerifiedPublicKeyCallback(s, pubKey, …)", call, "called with the key as presented by the client", "VerifiedPublicKeyCallback is given a key other than the one presented by the client")
-			// only when cached decision is nil: the call block must lie behind a ==nil edge of the value that becomes authErr
-			var passNil []edge
-			allInstrs(fn, func(in2 ssa.Instruction) {
-				if u, ok := in2.(*ssa.UnOp); ok && u.Op == token.MUL {
-					if al, fi, ok := localFieldAddr(u.X); ok && typeName(al.Type()) == "cachedPubKey" && derefStruct(al.Type()).Field(fi).Name() == "result" {
-						y, _ := edgesWhere(u, isNil)
-						passNil = append(passNil, y...)
-					}
-				}
-			})
-			cut := edgeSet{}
-			cut.addAll(passNil)
-			for k := range s.back {
-				cut[k] = true
-			}
-			cut.addAll(nil)
-			c.check(len(passNil) > 0 && !reach([]*ssa.BasicBlock{verify.Block()}, cut)[call.Block()], "C32.verified-cb-gate", "VerifiedPublicKeyCallback gate", call,
-				"called only when the cached PublicKeyCallback decision is nil", "VerifiedPublicKeyCallback can run although PublicKeyCallback rejected the key")
-		}
-	})
-	c.check(nPK == 1, "C32.callback-key", "PublicKeyCallback call sites", fn, "one call site", fmt.Sprintf("%d call sites of PublicKeyCallback, expected 1", nPK))
+	c.check(recvOK && len(recv) > 0, "C32.verify-key", "Verify receiver", verify, "the verifying key is ParsePublicKey(pubKeyData), relaxed only through noTouchAllowed/skKeyWithoutUP", "the key used for Verify is not derived from the offered key bytes")
 
 	// --- four algorithm guards on every iteration-local path to Verify
-	type guard struct {
+	isCompat := func(call *ssa.Call) bool { return short(calleeName(&call.Call)) == "ssh.isAlgoCompatible" }
+	facts := s.liftFacts(append(s.membershipFacts(), s.callFacts("compat", isTrue, 0, isCompat)...))
+	guards := []struct {
 		name string
 		pass []edge
-	}
-	var guards []guard
-	var g1, g2, g3 []edge
-	for _, ci := range calls(fn, nameIs("slices.Contains")) {
-		call := ci.(*ssa.Call)
-		a0, a1 := call.Call.Args[0], call.Call.Args[1]
-		y, _ := successEdges(call, 0, isTrue)
-		p0 := accessPath(a0)
-		switch {
-		case strings.HasSuffix(p0, "config.PublicKeyAuthAlgorithms"):
-			if cc, ok := a1.(*ssa.Call); ok && short(calleeName(&cc.Call)) == "ssh.underlyingAlgo" {
-				g1 = append(g1, y...)
-			} else if _, f, _, ok := fieldOf(a1); ok && f == "Format" {
-				g3 = append(g3, y...)
-			}
-		default:
-			if cc, ok := a0.(*ssa.Call); ok && short(calleeName(&cc.Call)) == "ssh.algorithmsForKeyFormat" {
-				g2 = append(g2, y...)
-			}
-		}
-	}
-	g4 := callSuccess(callsNamed(fn, "ssh.isAlgoCompatible"), 0, isTrue)
-	guards = []guard{
-		{"underlyingAlgo(algo) in PublicKeyAuthAlgorithms", g1},
-		{"algo in algorithmsForKeyFormat(pubKey.Type())", g2},
-		{"sig.Format in PublicKeyAuthAlgorithms", g3},
-		{"isAlgoCompatible(algo, sig.Format)", g4},
+	}{
+		{"underlyingAlgo(algo) in PublicKeyAuthAlgorithms", c32FactEdges(facts, "accepted", "underlying")},
+		{"algo in algorithmsForKeyFormat(pubKey.Type())", c32FactEdges(facts, "keyfmt", "*")},
+		{"sig.Format in PublicKeyAuthAlgorithms", c32FactEdges(facts, "accepted", "sigformat")},
+		{"isAlgoCompatible(algo, sig.Format)", c32FactEdges(facts, "compat", "*")},
 	}
 	for _, g := range guards {
-		c.check(s.iterCross(verify.Block(), g.pass), "C32.algo-guard", g.name, verify, "on every path of the iteration that reaches Verify", "Verify is reachable without passing the guard: "+g.name)
+		c.check(s.deepCross(verify, g.pass), "C32.algo-guard", g.name, verify, "on every path of the iteration that reaches Verify", "Verify is reachable without passing the guard: "+g.name)
 	}
 	// the signature verified is the one parsed from this request's payload
 	sigOK := false
-	if ex, ok := verify.Call.Args[1].(*ssa.Extract); ok {
-		if call, ok := ex.Tuple.(*ssa.Call); ok && short(calleeName(&call.Call)) == "ssh.parseSignature" && s.H.Dominates(call.Block()) {
+	if ex, ok := c.origin(verify.Call.Args[1]).(*ssa.Extract); ok {
+		if call, ok := ex.Tuple.(*ssa.Call); ok && short(calleeName(&call.Call)) == "ssh.parseSignature" && s.inLoop(call) {
 			sigOK = true
 		}
 	}
 	c.check(sigOK, "C32.verify-data", "Verify(sig)", verify, "signature parsed from this iteration's payload", "the signature passed to Verify is not the one parsed from the current request")
+
+	// the callbacks see the key parsed from the same bytes
+	nPK := 0
+	deepInstrs(fn, func(in ssa.Instruction) {
+		call, ok := in.(*ssa.Call)
+		if !ok {
+			return
+		}
+		o, f, base, ok := c.c32CallbackField(call)
+		if !ok {
+			return
+		}
+		if f == "PublicKeyCallback" { // of whatever owner: it must be the current authConfig's
+			nPK++
+			c.check(s.allocOf(base) == authCfg && len(call.Call.Args) > 1 && s.same(call.Call.Args[1], pubKey), "C32.callback-key", "PublicKeyCallback(s, pubKey)", call, "current callback set, called with the parsed offered key", "PublicKeyCallback is not the current authConfig's or is not given the parsed offered key")
+		}
+		if o == "ServerConfig" && f == "VerifiedPublicKeyCallback" {
+			c.check(len(call.Call.Args) > 1 && s.same(call.Call.Args[1], pubKey), "C32.callback-key", "VerifiedPublicKeyCallback(s, pubKey, …)", call, "called with the key as presented by the client", "VerifiedPublicKeyCallback is given a key other than the one presented by the client")
+			// only when the cached decision is nil: between Verify and the call every
+			// path crosses a == nil edge of the cached decision
+			var passNil []edge
+			for _, v := range s.roleVals(func(v ssa.Value) bool {
+				_, e, fi, ok := s.entryField(v)
+				return ok && fi == e.result
+			}) {
+				y, _ := edgesWhere(v, isNil)
+				passNil = append(passNil, y...)
+			}
+			c.check(s.deepCrossFrom(verify, call, passNil), "C32.verified-cb-gate", "VerifiedPublicKeyCallback gate", call,
+				"called only when the cached PublicKeyCallback decision is nil", "VerifiedPublicKeyCallback can run although PublicKeyCallback rejected the key")
+		}
+	})
+	c.check(nPK >= 1, "C32.callback-key", "PublicKeyCallback call sites", fn, fmt.Sprintf("%d call site(s), each checked", nPK), "no call site of PublicKeyCallback found")
 	_ = verifyOK
 }
 
-func c32Perms(s *saCtx, authCfg *ssa.Alloc, nextStore *ssa.Store, partial *ssa.Phi) {
-	c, fn := s.c, s.fn
+// c32Callbacks: the cache lookup is keyed by the connection's user and the
+// offered key bytes.
+func c32Callbacks(s *saCtx, verifies []*ssa.Call, authCfg *ssa.Alloc, pkds map[ssa.Value]bool) {
+	c := s.c
+	n := 0
+	for _, call := range s.cacheLookups() {
+		var userArg, keyArg ssa.Value
+		for _, a := range call.Call.Args {
+			switch {
+			case c32IsString(a.Type()):
+				userArg = a
+			case c32IsBytes(a.Type()):
+				keyArg = a
+			}
+		}
+		n++
+		userOK := false
+		if userArg != nil {
+			// the (possibly embedded) user field of the connection being authenticated
+			_, f, base, ok := fieldOf(c.origin(userArg))
+			userOK = ok && f == "user"
+			for i := 0; ok && i < 4; i++ {
+				var b2 ssa.Value
+				if _, _, b2, ok = fieldOf(c.origin(base)); ok {
+					base = b2
+				}
+			}
+			userOK = userOK && base != nil && typeName(c.origin(base).Type()) == "connection"
+		}
+		c.check(userOK && keyArg != nil && pkds[c.origin(keyArg)], "C32.cache-key", "cache.get(user, pubKeyData)", call, "lookup keyed by the connection's user and the offered key bytes", "cache lookup is not keyed by (s.user, pubKeyData)")
+	}
+	if n == 0 {
+		c.fail("C32.cache-key", "cache.get(user, pubKeyData)", s.fn, "no lookup of the public key cache found (a call returning a cache entry and a hit flag)")
+	}
+}
+
+// cacheLookups: calls, in fn or its helpers, of a same-package function that
+// returns (cache entry, bool) — the pubKeyCache lookup, whatever it is called.
+func (s *saCtx) cacheLookups() []*ssa.Call {
+	var out []*ssa.Call
+	deepInstrs(s.fn, func(in ssa.Instruction) {
+		call, ok := in.(*ssa.Call)
+		if !ok {
+			return
+		}
+		h := samePkgCallee(s.fn, &call.Call)
+		if h == nil {
+			return
+		}
+		res := h.Signature.Results()
+		if res.Len() != 2 || !c32IsBool(res.At(1).Type()) {
+			return
+		}
+		if _, ok := c32EntryOf(res.At(0).Type()); ok {
+			out = append(out, call)
+		}
+	})
+	return out
+}
+
+// pairOK: wherever the error value ev can be nil, the permissions value pv is
+// produced by the same callback invocation / cache entry — through every join
+// and through the returns of same-package helpers.
+func (s *saCtx) pairOK(pv, ev ssa.Value, at *ssa.BasicBlock, depth int) bool {
+	if pv == nil || ev == nil {
+		return false
+	}
+	if at != nil && errNilness(ev, at, 0) == neverNil {
+		return true
+	}
+	if u, ok := ev.(*ssa.UnOp); ok && at != nil && localLoadNonNil(u, at, s.startOf(u.Parent())) {
+		return true
+	}
+	k := [2]ssa.Value{pv, ev}
+	if s.pairSeen[k] {
+		return true
+	}
+	s.pairSeen[k] = true
+	if depth > 16 {
+		s.pairBad = ev
+		return false
+	}
+	ep, eIsPhi := ev.(*ssa.Phi)
+	pp, pIsPhi := pv.(*ssa.Phi)
+	switch {
+	case eIsPhi && pIsPhi && ep.Block() == pp.Block():
+		ok := true
+		for i := range ep.Edges {
+			if !s.pairOK(pp.Edges[i], ep.Edges[i], ep.Block().Preds[i], depth+1) {
+				ok = false
+			}
+		}
+		return ok
+	case eIsPhi && (!pIsPhi || pp.Block().Dominates(ep.Block())):
+		// the permissions value is fixed before the join of the error value
+		ok := true
+		for i := range ep.Edges {
+			if !s.pairOK(pv, ep.Edges[i], ep.Block().Preds[i], depth+1) {
+				ok = false
+			}
+		}
+		return ok
+	case pIsPhi:
+		ok := true
+		for i := range pp.Edges {
+			if !s.pairOK(pp.Edges[i], ev, pp.Block().Preds[i], depth+1) {
+				ok = false
+			}
+		}
+		return ok
+	}
+	s.pairN++
+	good := false
+	switch x := ev.(type) {
+	case *ssa.Const:
+		good = x.IsNil() && isNilConst(pv)
+	case *ssa.Extract:
+		if px, isEx := pv.(*ssa.Extract); isEx && px.Tuple == x.Tuple {
+			good = true
+			if h, _, _, ok := s.helperResult(x); ok && !c32Tabled(h) {
+				for _, r := range returnsOf(h) {
+					if !s.pairOK(retVal(r, px.Index), retVal(r, x.Index), r.Block(), depth+1) {
+						good = false
+					}
+				}
+			}
+		}
+	default:
+		// the cached decision travels with the cached permissions of the same entry
+		if al, e, f, ok := s.entryField(ev); ok && f == e.result {
+			if al2, _, f2, ok2 := s.entryField(pv); ok2 && al2 == al && f2 == e.perms {
+				good = true
+			}
+		}
+	}
+	if !good && s.pairBad == nil {
+		s.pairBad = ev
+		if at != nil && len(at.Instrs) > 0 {
+			s.pairBad = at.Instrs[len(at.Instrs)-1]
+		}
+	}
+	return good
+}
+
+func c32Perms(s *saCtx, nextStore *ssa.Store) {
+	c := s.c
 	pv := s.ret.Results[0]
 	carried := false
-	for _, l := range phiLeaves(pv) {
-		_ = l
-	}
 	// no phi in the chain may sit in the loop header (a loop-carried value)
 	seen := map[*ssa.Phi]bool{}
 	var walk func(v ssa.Value)
@@ -481,125 +643,290 @@ func c32Perms(s *saCtx, authCfg *ssa.Alloc, nextStore *ssa.Store, partial *ssa.P
 	}
 	walk(pv)
 	c.check(!carried, "C32.perms-fresh", "returned Permissions", s.ret, "no loop-carried value: the returned permissions are produced in the final iteration", "the returned Permissions can be a value carried over from an earlier authentication request")
-	// pairing: on each accepting edge, perms comes from the same call / cache entry as the error
-	permPhi, _ := pv.(*ssa.Phi)
-	if permPhi == nil {
-		c.fail("C32.perms-pair", "returned Permissions", s.ret, "returned permissions are not a phi of per-method values")
-		return
-	}
-	// build map pred -> perms value at the block of the first-level authErr phi
-	var inner *ssa.Phi
-	for _, e := range s.A.Edges {
-		if q, ok := e.(*ssa.Phi); ok {
-			inner = q
-		}
-	}
-	if inner == nil {
-		inner = s.A
-	}
-	var permInner *ssa.Phi
-	if permPhi.Block() == inner.Block() {
-		permInner = permPhi
+	// pairing: wherever the error can be nil, perms comes from the same call / cache entry
+	s.pairSeen = map[[2]ssa.Value]bool{}
+	if s.pairOK(pv, s.A, s.ret.Block(), 0) && s.pairN > 0 {
+		c.ok("C32.perms-pair", "returned Permissions", s.ret, fmt.Sprintf("on all %d possibly-accepting definitions permissions and result come from the same callback invocation or cache entry", s.pairN))
 	} else {
-		for _, e := range permPhi.Edges {
-			if q, ok := e.(*ssa.Phi); ok && q.Block() == inner.Block() {
-				permInner = q
-			}
+		var at poser = s.ret
+		if s.pairBad != nil {
+			at = s.pairBad
+		}
+		c.fail("C32.perms-pair", "returned Permissions", at, "on this definition the permissions do not come from the same callback invocation / cache entry as the authentication result")
+	}
+	// partial success: the pubkey cache is cleared before the next request is
+	// read — no path from the installation of the Next callbacks back to the loop
+	// header avoids a store that resets the cache (or the reset precedes the
+	// installation in the same block)
+	var cache *ssa.Alloc
+	for _, call := range s.cacheLookups() {
+		if al := s.allocOf(call.Call.Args[0]); al != nil && al.Parent() == s.fn {
+			cache = al
 		}
 	}
-	if permInner == nil {
-		c.fail("C32.perms-pair", "returned Permissions", permPhi, "no permissions phi found at the join of the method switch")
-		return
-	}
-	bad := 0
-	n := 0
-	for i, ev := range inner.Edges {
-		pred := inner.Block().Preds[i]
-		if errNilness(ev, pred, 0) == neverNil {
-			continue
-		}
-		if u, ok := ev.(*ssa.UnOp); ok && localLoadNonNil(u, pred, s.H) {
-			continue
-		}
-		pvv := permInner.Edges[i]
-		n++
-		ok := false
-		switch x := ev.(type) {
-		case *ssa.Const:
-			ok = isNilConst(pvv)
-		case *ssa.Extract:
-			if px, isEx := pvv.(*ssa.Extract); isEx && px.Tuple == x.Tuple {
-				ok = true
+	// a store that empties the cache cell: the whole value replaced, or its
+	// slice field set to nil / resliced to length 0
+	resetOf := func(isCell func(ssa.Value) bool) func(ssa.Instruction) bool {
+		return func(in ssa.Instruction) bool {
+			st, ok := in.(*ssa.Store)
+			if !ok {
+				return false
 			}
-		case *ssa.UnOp:
-			if al, _, isL := localFieldAddr(x.X); isL {
-				if pu, isU := pvv.(*ssa.UnOp); isU {
-					if al2, f2, isL2 := localFieldAddr(pu.X); isL2 && al2 == al && derefStruct(al.Type()).Field(f2).Name() == "perms" {
-						ok = true
+			if isCell(st.Addr) {
+				return true
+			}
+			if fa, ok := st.Addr.(*ssa.FieldAddr); ok && isCell(fa.X) {
+				if isNilConst(st.Val) {
+					return true
+				}
+				if sl, ok := st.Val.(*ssa.Slice); ok && sl.High != nil {
+					if n, isC := constInt(sl.High); isC && n == 0 {
+						return true
 					}
 				}
 			}
+			return false
 		}
+	}
+	direct := resetOf(func(v ssa.Value) bool { return cache != nil && v == ssa.Value(cache) })
+	isReset := func(in ssa.Instruction) bool {
+		if cache == nil {
+			return false
+		}
+		if direct(in) {
+			return true
+		}
+		// a helper that empties the cache it is handed, on every path to its return
+		call, ok := in.(*ssa.Call)
 		if !ok {
-			bad++
-			c.fail("C32.perms-pair", fmt.Sprintf("accepting edge from block %d", pred.Index), pred.Instrs[len(pred.Instrs)-1], "on this edge the permissions do not come from the same callback invocation / cache entry as the authentication result")
+			return false
 		}
+		h := samePkgCallee(s.fn, &call.Call)
+		if h == nil {
+			return false
+		}
+		for i, a := range call.Call.Args {
+			if a != ssa.Value(cache) || i >= len(h.Params) {
+				continue
+			}
+			p := h.Params[i]
+			inner := resetOf(func(v ssa.Value) bool { return v == ssa.Value(p) })
+			first := h.Blocks[0].Instrs[0]
+			isRet := func(x ssa.Instruction) bool { _, r := x.(*ssa.Return); return r }
+			if inner(first) || !isRet(first) && passBefore(first, inner, isRet) == nil {
+				return true
+			}
+		}
+		return false
 	}
-	if bad == 0 {
-		c.ok("C32.perms-pair", "returned Permissions", permInner, fmt.Sprintf("on all %d accepting edges permissions and result come from the same callback invocation or cache entry", n))
-	}
-	// partial success: perms must be nil (else error return), cache reset, flag set — all in the block region of nextStore
-	blk := nextStore.Block()
 	cacheReset := false
-	for _, in := range blk.Instrs {
-		if st, ok := in.(*ssa.Store); ok {
-			if al, ok := st.Addr.(*ssa.Alloc); ok && typeName(al.Type()) == "pubKeyCache" {
+	if cache != nil {
+		head := s.H.Instrs[0]
+		cacheReset = passBefore(nextStore, isReset, func(in ssa.Instruction) bool { return in == head }) == nil
+		for _, in := range nextStore.Block().Instrs {
+			if in == ssa.Instruction(nextStore) {
+				break
+			}
+			if isReset(in) {
 				cacheReset = true
 			}
 		}
 	}
 	c.check(cacheReset, "C32.partial-next", "cache reset on partial success", nextStore, "the pubkey cache is cleared when the callback set changes", "the pubkey cache is not reset when a partial success installs new callbacks (stale decisions of the previous callback could be reused)")
-	// perms != nil -> error: nextStore's block reachable only via permsVal == nil edge
-	var permNil []edge
-	for _, v := range []ssa.Value{pv} {
-		y, _ := edgesWhere(v, isNil)
-		permNil = append(permNil, y...)
+	// perms != nil -> error: the installation is reachable only via a perms == nil edge
+	permNil, _ := edgesWhere(pv, isNil)
+	c.check(s.deepCross(nextStore, permNil), "C32.partial-next", "partial success requires nil permissions", nextStore, "the next callbacks are installed only behind perms == nil", "a partial success with non-nil Permissions is not rejected")
+}
+
+// c32EntryRole: v reads a field of a cache-entry struct (local or not); returns
+// the entry description and the field index.
+func c32EntryRole(v ssa.Value) (*c32Entry, int, bool) {
+	var x ssa.Value
+	var idx int
+	switch y := v.(type) {
+	case *ssa.UnOp:
+		fa, ok := y.X.(*ssa.FieldAddr)
+		if y.Op != token.MUL || !ok {
+			return nil, 0, false
+		}
+		x, idx = fa.X, fa.Field
+	case *ssa.Field:
+		x, idx = y.X, y.Field
+	default:
+		return nil, 0, false
 	}
-	c.check(s.iterCross(blk, permNil), "C32.partial-next", "partial success requires nil permissions", nextStore, "the next callbacks are installed only behind perms == nil", "a partial success with non-nil Permissions is not rejected")
-	_ = fn
-	_ = authCfg
-	_ = partial
+	e, ok := c32EntryOf(x.Type())
+	return e, idx, ok
+}
+
+// c32EqEdges: in function f, the edges on which an entry's user field equals
+// the looked-up user and on which its key bytes equal the looked-up bytes;
+// isArg tells which values of f denote the looked-up user / key.
+func c32EqEdges(f *ssa.Function, isArg func(ssa.Value) bool) (user, key []edge, userVals, keyVals map[ssa.Value]bool) {
+	userVals, keyVals = map[ssa.Value]bool{}, map[ssa.Value]bool{}
+	role := func(v ssa.Value) string {
+		v = stripConv(v)
+		if e, i, ok := c32EntryRole(v); ok {
+			switch i {
+			case e.user:
+				return "user"
+			case e.key:
+				return "key"
+			}
+		}
+		return ""
+	}
+	arg := func(v ssa.Value) bool { return isArg(stripConv(v)) }
+	allInstrs(f, func(in ssa.Instruction) {
+		switch x := in.(type) {
+		case *ssa.BinOp:
+			if x.Op != token.EQL && x.Op != token.NEQ {
+				return
+			}
+			for _, pr := range [][2]ssa.Value{{x.X, x.Y}, {x.Y, x.X}} {
+				if r := role(pr[0]); r != "" && arg(pr[1]) {
+					y, _ := boolEdges(x, x.Op == token.EQL)
+					if r == "user" && c32IsString(stripConv(pr[1]).Type()) {
+						user = append(user, y...)
+						if x.Op == token.EQL {
+							userVals[x] = true
+						}
+					}
+					if r == "key" { // string(k.pubKeyData) == string(pubKeyData)
+						key = append(key, y...)
+						if x.Op == token.EQL {
+							keyVals[x] = true
+						}
+					}
+				}
+			}
+		case *ssa.Call:
+			n := short(calleeName(&x.Call))
+			a := x.Call.Args
+			if len(a) != 2 {
+				return
+			}
+			if !(role(a[0]) == "key" && arg(a[1]) || role(a[1]) == "key" && arg(a[0])) {
+				return
+			}
+			switch n {
+			case "bytes.Equal", "slices.Equal":
+				y, _ := successEdges(x, 0, isTrue)
+				key = append(key, y...)
+				keyVals[x] = true
+			case "crypto/subtle.ConstantTimeCompare":
+				y, _ := successEdges(x, 0, isOne)
+				key = append(key, y...)
+			case "bytes.Compare", "slices.Compare":
+				y, _ := successEdges(x, 0, isZero)
+				key = append(key, y...)
+			}
+		}
+	})
+	return
 }
 
 func c32Cache(s *saCtx) {
 	c := s.c
-	get := c.fn("ssh", "(*pubKeyCache).get")
-	if get != nil {
+	gets := map[*ssa.Function]bool{}
+	var order []*ssa.Function
+	for _, call := range s.cacheLookups() {
+		if h := call.Call.StaticCallee(); h != nil && !gets[h] {
+			gets[h] = true
+			order = append(order, h)
+		}
+	}
+	if len(order) == 0 {
+		if get := c.fn("ssh", "(*pubKeyCache).get"); get != nil {
+			order = append(order, get)
+		}
+	}
+	for _, get := range order {
 		hit := retTargets(get, func(r *ssa.Return) bool {
+			if len(r.Results) < 2 {
+				return false
+			}
 			b, ok := constBool(r.Results[1])
 			return !ok || b
 		})
-		var userEq, keyEq []edge
+		isParam := func(v ssa.Value) bool {
+			p, ok := v.(*ssa.Parameter)
+			return ok && p.Parent() == get
+		}
+		userEq, keyEq, _, _ := c32EqEdges(get, isParam)
+		// slices.IndexFunc / slices.ContainsFunc with a predicate closure: the
+		// "found" edges count when every true return of the closure lies behind
+		// the equality
 		allInstrs(get, func(in ssa.Instruction) {
-			if bo, ok := in.(*ssa.BinOp); ok && (bo.Op == token.EQL || bo.Op == token.NEQ) {
-				px, py := bo.X, bo.Y
-				isUserField := func(v ssa.Value) bool { _, f, _, ok := fieldOf(v); return ok && f == "user" }
-				isUserParam := func(v ssa.Value) bool { return v == ssa.Value(get.Params[1]) }
-				if (isUserField(px) && isUserParam(py)) || (isUserField(py) && isUserParam(px)) {
-					y, _ := boolEdges(bo, bo.Op == token.EQL)
-					userEq = append(userEq, y...)
+			call, ok := in.(*ssa.Call)
+			if !ok || len(call.Call.Args) != 2 {
+				return
+			}
+			n := short(calleeName(&call.Call))
+			if n != "slices.IndexFunc" && n != "slices.ContainsFunc" {
+				return
+			}
+			mc, ok := call.Call.Args[1].(*ssa.MakeClosure)
+			if !ok {
+				return
+			}
+			cl, ok := mc.Fn.(*ssa.Function)
+			if !ok || len(cl.Blocks) == 0 {
+				return
+			}
+			bound := func(v ssa.Value) bool {
+				if u, ok := v.(*ssa.UnOp); ok && u.Op == token.MUL {
+					v = u.X // a captured variable is read through its box
 				}
+				fv, ok := v.(*ssa.FreeVar)
+				if !ok {
+					return false
+				}
+				for i, x := range cl.FreeVars {
+					if x != fv || i >= len(mc.Bindings) {
+						continue
+					}
+					b := stripConv(mc.Bindings[i])
+					if isParam(b) {
+						return true
+					}
+					// the box of a captured parameter: its only store is the parameter
+					if al, ok := b.(*ssa.Alloc); ok {
+						n, good := 0, false
+						for _, r := range *al.Referrers() {
+							if st, ok := r.(*ssa.Store); ok && st.Addr == ssa.Value(al) {
+								n++
+								good = isParam(stripConv(st.Val))
+							}
+						}
+						return n == 1 && good
+					}
+				}
+				return false
+			}
+			var found []edge
+			if n == "slices.ContainsFunc" {
+				found, _ = successEdges(call, 0, isTrue)
+			} else {
+				found = c32IndexFoundEdges(call)
+			}
+			u, k, uv, kv := c32EqEdges(cl, bound)
+			if c32SuccessBehind(cl, 0, isTrue, u, uv) {
+				userEq = append(userEq, found...)
+			}
+			if c32SuccessBehind(cl, 0, isTrue, k, kv) {
+				keyEq = append(keyEq, found...)
 			}
 		})
-		for _, ci := range callsNamed(get, "bytes.Equal") {
-			a := ci.Common().Args
-			isKeyField := func(v ssa.Value) bool { _, f, _, ok := fieldOf(v); return ok && f == "pubKeyData" }
-			if (isKeyField(a[0]) && a[1] == ssa.Value(get.Params[2])) || (isKeyField(a[1]) && a[0] == ssa.Value(get.Params[2])) {
-				y, _ := successEdges(ci.(*ssa.Call), 0, isTrue)
-				keyEq = append(keyEq, y...)
-			}
-		}
 		c.mustCross("C32.cache-hit", "pubKeyCache.get user equality", get, instrsOf(hit), userEq, "entry.user == user")
 		c.mustCross("C32.cache-hit", "pubKeyCache.get key equality", get, instrsOf(hit), keyEq, "bytes.Equal(entry.pubKeyData, pubKeyData)")
 	}
+}
+
+// callbackField describes a dynamic call through a struct field (used by other properties).
+func callbackField(call *ssa.Call) (owner, field string, base ssa.Value, ok bool) {
+	if call.Call.IsInvoke() || call.Call.StaticCallee() != nil {
+		return
+	}
+	return fieldOf(call.Call.Value)
 }
